@@ -2,6 +2,7 @@ import StunVerif.Props.C07
 import StunVerif.Props.C07Codec
 import StunVerif.Props.SrcFnAgent
 import StunVerif.Props.SrcFnPoll
+import StunVerif.Props.SrcFnIntegrity
 #print axioms StunVerif.C07.delivered_auth
 #print axioms StunVerif.C07.forged_dropped
 #print axioms StunVerif.C07.forged_equiv
@@ -39,3 +40,14 @@ import StunVerif.Props.SrcFnPoll
 #print axioms StunVerif.SrcFnPoll.foldl_congr_mem
 #print axioms StunVerif.SrcFnPoll.minWait_as_map
 #print axioms StunVerif.SrcFnPoll.src_agentPoll
+#print axioms StunVerif.SrcFnIntegrity.FaultEq.rfl'
+#print axioms StunVerif.SrcFnIntegrity.FaultEq.of_faults
+#print axioms StunVerif.SrcFnIntegrity.FaultEq.eq_of_not_fault
+#print axioms StunVerif.SrcFnIntegrity.match_ite
+#print axioms StunVerif.SrcFnIntegrity.scan_nil_fault
+#print axioms StunVerif.SrcFnIntegrity.raw_value_le
+#print axioms StunVerif.SrcFnIntegrity.mi_len
+#print axioms StunVerif.SrcFnIntegrity.scan_agree
+#print axioms StunVerif.SrcFnIntegrity.src_validateIntegrity_faultEq
+#print axioms StunVerif.SrcFnIntegrity.accepted_size
+#print axioms StunVerif.SrcFnIntegrity.src_validateIntegrity
